@@ -1259,7 +1259,14 @@ class Mailbox:
         notifications.append(f"* {num_msgs} EXISTS\r\n")
         notifications.append(f"* {num_recent} RECENT\r\n")
         for c in self.clients.values():
-            await c.client.push(*notifications)
+            # A client that has not yet been sent its pending EXPUNGE's still
+            # counts the expunged messages. The new count must reach it after
+            # those EXPUNGE's or it ends up with too few messages.
+            #
+            if c.pending_expunges():
+                c.pending_notifications.extend(notifications)
+            else:
+                await c.client.push(*notifications)
 
         self.num_msgs = num_msgs
         self.num_recent = num_recent
